@@ -993,6 +993,16 @@ func (s *BgpServer) notifyAdjInWithdrawWatcher(peer *peer, pathList []*table.Pat
 	s.notifyWatcher(watchEventTypeAdjInWithdraw, ev)
 }
 
+// peerEventLocalAddress: the local address of the session once there is one
+// (BMP Peer Up, RFC 7854 4.10: "the local IP address associated with the
+// peering TCP session"), the configured one before.
+func peerEventLocalAddress(conf *oc.Neighbor) netip.Addr {
+	if a := conf.Transport.State.LocalAddress; a.IsValid() && !a.IsUnspecified() {
+		return a
+	}
+	return conf.Transport.Config.LocalAddress
+}
+
 func newWatchEventPeer(peer *peer, m *fsmMsg, newState, oldState bgp.FSMState, t apiutil.PeerEventType) *watchEventPeer {
 	peer.fsm.lock.Lock()
 	conf := peer.fsm.pConf.ReadCopy()
@@ -1021,7 +1031,7 @@ func newWatchEventPeer(peer *peer, m *fsmMsg, newState, oldState bgp.FSMState, t
 		PeerAS:        conf.State.PeerAs,
 		LocalAS:       conf.Config.LocalAs,
 		PeerAddress:   conf.State.NeighborAddress,
-		LocalAddress:  conf.Transport.Config.LocalAddress,
+		LocalAddress:  peerEventLocalAddress(&conf),
 		PeerPort:      conf.Transport.State.RemotePort,
 		LocalPort:     conf.Transport.State.LocalPort,
 		PeerID:        conf.State.RemoteRouterId,
